@@ -7,26 +7,13 @@
    for the faulted operation and for everything after it. *)
 From Coq Require Import List String Bool Arith ZArith.
 From Helm Require Import Common.Assoc Engine.Types Engine.Eff Engine.Ops Engine.Cluster Engine.Seq Engine.OpsR.
-From Helm Require Export Run.RunEng.
+From Helm Require Export Run.RunEng Engine.OpsRHistory.
 Import ListNotations.
-
-Inductive rstep := RS (h : hstep) | RRead (n : nat) (c : opcase).
 
 Record rcase := mkRCase { rc_init : list (string * fields); rc_steps : list rstep; rc_obs : list step_obs }.
 
-Definition run_store_opR (n : nat) (c : opcase) (w : world) : world * outcome * list tev :=
-  let k0 := mkK (w_objs w) (cf_k (oc_cf c)) (cf_h (oc_cf c)) (cf_wait (oc_cf c)) in
-  let '(s, out) := run kstate (kube_handle rn ns) dead_resp (oc_sf c)
-                       (rfail n (op_progR rn ns (oc_op c))) (mkR (w_led w) k0 0 0 false []) in
-  (mkW (led s) (objs (ks s)), (if dead s then OCrashed else out), tr s).
-
-Fixpoint run_historyR (h : list rstep) (w : world) : list (world * outcome * list tev) :=
-  match h with
-  | [] => []
-  | RS (HOp c) :: t => let '(w', out, tr) := run_store_op rn ns c w in (w', out, tr) :: run_historyR t w'
-  | RS (HEdit e) :: t => let w' := apply_edit w e in (w', OOk, []) :: run_historyR t w'
-  | RRead n c :: t => let '(w', out, tr) := run_store_opR n c w in (w', out, tr) :: run_historyR t w'
-  end.
+(* the evaluator: Engine/OpsRHistory.v (the function Engine/OpsRHistoryProofs.v proves the ledger clauses about) *)
+Definition run_historyR := OpsRHistory.run_historyR rn ns.
 
 Definition rcase_ok (c : rcase) : bool :=
   steps_agree (run_historyR (rc_steps c) (mkW [] (rc_init c))) (rc_obs c).
@@ -44,7 +31,7 @@ Definition mismatches := rmismatches_from 0.
 (* without read-faulted steps this is Run/RunEng.v's evaluation *)
 Lemma run_historyR_plain h w : run_historyR (map RS h) w = run_history rn ns h w.
 Proof.
-  revert w; induction h as [|[c|e] t IH]; intros w; cbn [map run_historyR run_history]; [reflexivity| |].
+  unfold run_historyR. revert w; induction h as [|[c|e] t IH]; intros w; cbn [map OpsRHistory.run_historyR run_history]; [reflexivity| |].
   - destruct (run_store_op rn ns c w) as [[w' out] tr]. now rewrite IH.
   - now rewrite IH.
 Qed.
